@@ -31,9 +31,23 @@ fn menu(n: usize, party: usize, thorough: bool) -> Vec<Stray> {
     v
 }
 
+/// An external run is valid in state Validated only.  For a follower that is: it has been scheduled,
+/// the leader's validate has been delivered to it, and no run has been delivered yet.  (The leader
+/// sends itself an internal run; a stray one may legitimately take its place, so the leader is not
+/// constrained here.)
+pub fn run_is_invalid(prefix: &[Ev], party: usize, leader: usize) -> bool {
+    if party == leader {
+        return false;
+    }
+    let scheduled = prefix.iter().any(|e| matches!(e, Ev::Schedule { party: p, .. } if *p as usize == party));
+    let validated = prefix.iter().any(|e| matches!(e, Ev::Deliver(k) if k.kind == crate::srv::Kind::Validate && k.to as usize == party));
+    let run = prefix.iter().any(|e| matches!(e, Ev::Deliver(k) if k.kind == crate::srv::Kind::Run && k.to as usize == party));
+    !(scheduled && validated && !run)
+}
+
 /// validate is valid in Init and AwaitingValidation only: a further one is invalid for the state once
 /// a validate has been delivered to the party or the party has been scheduled as leader
-fn validate_is_invalid(prefix: &[Ev], party: usize, leader: usize) -> bool {
+pub fn validate_is_invalid(prefix: &[Ev], party: usize, leader: usize) -> bool {
     prefix.iter().any(|e| match e {
         Ev::Deliver(k) => k.kind == crate::srv::Kind::Validate && k.to as usize == party,
         Ev::Schedule { party: p, .. } => *p as usize == party && party == leader,
@@ -192,6 +206,10 @@ pub fn main(tier: Tier, seed: u64) -> i32 {
             }
             Some(Ok(())) => {
                 accepted += 1;
+                let stray_pos = r.history.iter().position(|e| matches!(e, Ev::Stray { .. })).unwrap_or(0);
+                if matches!(cmd, Stray::Run) && run_is_invalid(&r.history[..stray_pos], *party, *leader) {
+                    rep.violation("run_accepted_in_invalid_state", format!("{desc}: answered Ok although the party is not waiting for its run (not yet validated, or its run has already been delivered)"), replay.clone());
+                }
                 if matches!(cmd, Stray::ValidateDup { .. }) {
                     rep.violation("validate_accepted_in_invalid_state", format!("{desc}: answered Ok although the state machine had already received its validate (or leads the computation)"), replay.clone());
                 }
@@ -220,7 +238,7 @@ pub fn main(tier: Tier, seed: u64) -> i32 {
     rep.set("stray_rejected", json!(rejected));
     rep.set("stray_accepted_as_valid_for_state", json!(accepted));
     rep.set("stray_never_answered", json!(unanswered));
-    rep.rule = "base = default-order complete history (with constants, explicit MPC-message events) for n=2 and n=3; at every prefix length among coordination events and at spaced positions during MPC, each stray command (duplicate schedule / schedule with another party's policy / run / consts from in- and out-of-range parties / mpc_msg with sender in {0, own, n-1, n, n+5, usize::MAX} x empty/non-empty / a further validate, with the right and with a wrong program hash, wherever the party has already received its validate or leads the computation) is sent once to each party; then the base history is continued. In addition (n=2: every command of the menu; thorough tier: the first n=3 configuration with one command of each kind) a command is sent to each party in every reachable coordination state (all histories of schedule / validate / run / constants / compile events up to commutation, from the C13 explorer). Oracle: no actor panics; an unknown sender is never accepted; a further validate is answered with an error; when the stray command was answered with an error every C13 end-of-history assertion still holds. distinct non-trivial = rejected stray commands by (configuration, party, command, position)".into();
+    rep.rule = "base = default-order complete history (with constants, explicit MPC-message events) for n=2 and n=3; at every prefix length among coordination events and at spaced positions during MPC, each stray command (duplicate schedule / schedule with another party's policy / run / consts from in- and out-of-range parties / mpc_msg with sender in {0, own, n-1, n, n+5, usize::MAX} x empty/non-empty / a further validate, with the right and with a wrong program hash, wherever the party has already received its validate or leads the computation) is sent once to each party; then the base history is continued. In addition (n=2: every command of the menu; thorough tier: the first n=3 configuration with one command of each kind) a command is sent to each party in every reachable coordination state (all histories of schedule / validate / run / constants / compile events up to commutation, from the C13 explorer). Oracle: no actor panics; an unknown sender is never accepted; a further validate is answered with an error; a run sent to a follower that is not in state Validated (before its validation, or after its run) is answered with an error; when the stray command was answered with an error every C13 end-of-history assertion still holds. distinct non-trivial = rejected stray commands by (configuration, party, command, position)".into();
     rep.assumptions = vec!["a stray command that is valid for the current state (answered Ok) is indistinguishable from the legitimate one and is only checked for panics".into()];
     rep.finish()
 }
